@@ -495,10 +495,49 @@ def run_layout(ctx, res, case, rng, lib=True):
     return out
 
 
+def layout_probe(ctx, res, i):
+    """The chain is resolved from the directory as it is WHEN the evaluation runs: the same process evaluates the same top layer while
+    its lower layer is absent, appears, changes its extension and disappears again."""
+    sd = ctx.casedir()
+    low = {'who': 'lower', 'keep': [1, 2], 'n': i}
+    want = [{'who': 'upper', 'keep': [1, 2], 'n': i}]
+    top = os.path.join(sd, 'svc.prod.json')
+    with open(top, 'w') as f:
+        f.write('{"who": "upper"}')
+    steps = [('absent', None, None), ('created', 'svc.yaml', 'yaml'), ('moved', 'svc.toml', 'toml'), ('moved-back', 'svc.json', 'json'), ('removed', None, None), ('re-created', 'svc.yml', 'yaml')]
+    cur = None
+    try:
+        for k, (what, name, fmt) in enumerate(steps):
+            if cur:
+                os.remove(os.path.join(sd, cur))
+            cur = name
+            if name:
+                with open(os.path.join(sd, name), 'w') as f:
+                    f.write(ser.write(fmt, [low]))
+            r = ctx.call([{'op': 'merge_layers', 'path': top, 'parser': 30 + k}, {'op': 'output_docs', 'parser': 30 + k}], res)
+            if r is None:
+                return res.violate('crash', 'worker died (layout changing between evaluations)')
+            err = next((x['err'] for x in r['results'] if x['err']), None)
+            if name is None:
+                if err is None:
+                    return res.violate('missing', 'the lower layer is %s, yet the evaluation succeeds (a chain resolved by an earlier evaluation of this process is reused)' % what,
+                                       step=k, got=r['results'][-1].get('values'))
+            elif err is not None or not veq(r['results'][-1]['values'], want):
+                return res.violate('chain', 'the lower layer was %s before this evaluation, but the result is not the fold of the layers that exist now' % what,
+                                   step=k, layer=name, err=err, got=r['results'][-1].get('values'), expect=want)
+        res.ev('layouts_changed_between_evaluations')
+    finally:
+        ctx.cleanup_case(sd)
+    return None
+
+
 def check_case(ctx, case):
     res = Result()
     res.labels.update(case.get('labels', []))
     files, inputs = case['files'], case['inputs']
+    if case.get('i', 0) % 16 == 3:
+        if layout_probe(ctx, res, case.get('i', 0)) is not None:
+            return res
     rng = random.Random(json.dumps([sorted(files.keys()), inputs]))
     try:
         exp, order = expected(files, inputs, case['skipP'])
